@@ -25,7 +25,7 @@ RULE = ('random interleavings of reads (read_nonblocking, expect with timeout 0 
 ASSUMPTIONS = ['read-side truth = values returned by the instance\'s read_nonblocking (observed by a wrapper); send-side truth '
                '= the arguments, coerced to the API string type as documented',
                'interact() part uses the outer-pty driver of C15']
-REQUIRED = ['cases', 'per_read_log_checks', 'log_writes_seen', 'flush_checks', 'read_events', 'send_events', 'transport_pty', 'transport_fd',
+REQUIRED = ['cases', 'async_cases', 'per_read_log_checks', 'log_writes_seen', 'flush_checks', 'read_events', 'send_events', 'transport_pty', 'transport_fd',
             'transport_socket', 'transport_popen', 'unicode_cases', 'bytes_cases', 'interact_cases']
 
 TEXT = ['a', 'Z', ' ', '\n', '\r', '\xe9', '€', '日', '😀', '\x00', 'q']
@@ -280,9 +280,139 @@ def judge(case, acc, journal, events, objs, st):
     return True
 
 
+def async_case(case, acc):
+    """The asyncio read path (PatternWaiter.data_received): awaited expects, an await abandoned by cancellation
+    (the transport keeps reading), output that arrives while no call is outstanding, then further awaits and EOF.
+    logfile_read / logfile must receive exactly the text that is delivered (before+after of the calls + the
+    final before), once, in order."""
+    import asyncio
+    from pexpect import fdpexpect
+    acc.case()
+    acc.count('cases')
+    acc.count('async_cases')
+    enc = case['enc']
+    st = str if enc else bytes
+    T = (lambda x: x) if enc else (lambda x: x.encode('utf-8'))
+    r, w = os.pipe()
+    wfd = [w]
+    loop = asyncio.new_event_loop()
+    asyncio.set_event_loop(loop)
+    journal = []
+    c = fdpexpect.fdspawn(r, encoding=enc, timeout=5)
+    objs = {}
+    for nm in case['logs']:
+        objs[nm] = Rec(nm, journal)
+        setattr(c, nm, objs[nm])
+    delivered = st()
+    written = b''
+    n = [0]
+
+    async def go():
+        nonlocal delivered, written
+        for step in case['steps']:
+            k = step[0]
+            if k == 'write':
+                data = step[1].encode('utf-8')
+                os.write(wfd[0], data)
+                written += data
+            elif k == 'mark':
+                n[0] += 1
+                tag = '<M%d>' % n[0]
+                os.write(wfd[0], tag.encode())
+                written += tag.encode()
+                await c.expect_exact(T(tag), async_=True, timeout=5)
+                delivered = delivered + c.before + c.after
+            elif k == 'cancelled':
+                # an await abandoned from outside: the read transport stays active with a finished future
+                try:
+                    await asyncio.wait_for(c.expect_exact(T('\x01never'), async_=True, timeout=5), step[1])
+                except asyncio.TimeoutError:
+                    pass
+            elif k == 'idle':
+                await asyncio.sleep(step[1])
+        os.close(wfd[0])
+        wfd[0] = None
+        try:
+            await c.expect_exact(T('\x01never'), async_=True, timeout=5)
+        except EOF:
+            pass
+        delivered = delivered + c.before
+    try:
+        loop.run_until_complete(go())
+        want = written.decode('utf-8') if enc else written
+        where = 'asyncio %s logs=%s steps=%r' % (enc or 'bytes', '+'.join(case['logs']), [s0[0] for s0 in case['steps']])
+        if delivered != want:
+            # (a matter of C01/C14, reported there; here it only invalidates the comparison)
+            acc.inconc('async history did not deliver the whole stream: %r vs %r' % (delivered[-30:], want[-30:]))
+            return
+        acc.count('log_writes_seen', sum(1 for e in journal if e[0] == 'w'))
+        for nm in ('logfile_read', 'logfile'):
+            if nm in objs:
+                got = st().join(e[2] for e in journal if e[0] == 'w' and e[1] == nm)
+                acc.count('per_read_log_checks')
+                if got != want:
+                    acc.violation('async-read-log-differs', '%s: %s holds %r, delivered text %r' % (
+                        where, nm, got[-60:], want[-60:]), case)
+                    return
+        for e in journal:
+            if e[0] == 'w' and not isinstance(e[2], st):
+                acc.violation('log-wrong-string-type:async', '%s: %s.write(%s)' % (where, e[1], type(e[2]).__name__), case)
+                return
+        pend = {}
+        for e in journal:
+            if e[0] == 'w':
+                if pend.get(e[1]):
+                    acc.violation('log-write-without-flush:async', where, case)
+                    return
+                pend[e[1]] = True
+            else:
+                pend[e[1]] = False
+        acc.count('flush_checks')
+        if any(s0[0] == 'cancelled' for s0 in case['steps']):
+            acc.nontrivial('c11a', case)
+    finally:
+        try:
+            if c.async_pw_transport:
+                c.async_pw_transport[1].close()
+        except Exception:
+            pass
+        try:
+            loop.run_until_complete(asyncio.sleep(0))
+        except Exception:
+            pass
+        asyncio.set_event_loop(None)
+        loop.close()
+        for fd in (wfd[0], r):
+            if fd is not None:
+                try:
+                    os.close(fd)
+                except OSError:
+                    pass
+
+
+def gen_async(rng):
+    steps = []
+    for _ in range(rng.randint(2, 7)):
+        x = rng.random()
+        if x < 0.35:
+            steps.append(['write', ''.join(rng.choice(TEXT) for _ in range(rng.randint(1, 10))).replace('\x00', 'z')])
+        elif x < 0.6:
+            steps.append(['mark'])
+        elif x < 0.8:
+            steps.append(['cancelled', 0.02])
+            steps.append(['write', 'late-' + ''.join(rng.choice('abc\xe9') for _ in range(4))])
+            steps.append(['idle', 0.03])
+        else:
+            steps.append(['idle', 0.01])
+    steps.append(['mark'])
+    return {'async': True, 'enc': rng.choice([None, 'utf-8']), 'steps': steps,
+            'logs': rng.choice([['logfile_read'], ['logfile'], ['logfile', 'logfile_read']])}
+
+
 def plan(tier, seed):
     n = 1200 if tier == 'quick' else 24000
     specs = [{'n': b - a, 'shard': i, 'seed': seed} for i, (a, b) in enumerate(split_range(n, 14))]
+    specs.append({'async': True, 'n': 60 if tier == 'quick' else 1500, 'seed': seed, 'shard': 60})
     specs.append({'interact': True, 'n': 8 if tier == 'quick' else 80, 'seed': seed, 'shard': 50})
     specs.append({'interact': True, 'n': 8 if tier == 'quick' else 80, 'seed': seed, 'shard': 51})
     return specs
@@ -294,7 +424,18 @@ def run_shard(spec, acc):
         if case.get('interact'):
             from . import c15
             return c15.interact_log_case(case, acc)
+        if case.get('async'):
+            return async_case(case, acc)
         return guarded(case, acc)
+    if spec.get('async'):
+        rng = rng_for(spec['seed'], spec['shard'], 1114)
+        for i in range(spec['n']):
+            try:
+                with watchdog(60):
+                    async_case(gen_async(rng), acc)
+            except CaseTimeout as e:
+                acc.inconc('watchdog: %s' % e)
+        return
     if spec.get('interact'):
         from . import c15
         rng = rng_for(spec['seed'], spec['shard'], 1115)
